@@ -342,3 +342,8 @@ def lemma_integer_roundtrip(w: bytes, tag_class: int, constructed: bool, number:
 
 def lemma_boolean_roundtrip(w: bytes, tag_class: int, constructed: bool, number: int, value: bool, rest: bytes) -> None:
     lemma_tlv_roundtrip(w, tag_class, constructed, number, seq1(255 if value else 0), rest)
+
+
+def lemma_b128end_bounds(s: bytes, i: int) -> None:
+    if i < len(s) and s[i] >= 128:
+        lemma_b128end_bounds(s, i + 1)
